@@ -227,7 +227,8 @@ def gen_case(rng, uid0, real=None):
             "k": kind,
             "search": ss,
             "model": gen_model_prog(rng, feature if i == 0 else None),
-            "analysis": {"offset": rng.choice([0.0, 0.5, -1.0]), "scale": rng.choice([1.0, 4.0]), "attrs": gen_attrs(rng)},
+            "analysis": {"offset": rng.choice([0.0, 0.5, -1.0]), "scale": rng.choice([1.0, 4.0]), "attrs": gen_attrs(rng),
+                         "trunc": rng.random() < 0.3},
             "info": gen_info(rng),
             "store": rng.choices(["both", "zip", "folder", "stale"], weights=[4, 3, 2, 1])[0],
         }
@@ -277,13 +278,13 @@ def mk_search(ss, session=None):
 def mk_analysis(run):
     a = run["analysis"]
     if run["k"] == "combined":
-        parts = [c11lib.Quad(offset=a["offset"] + 0.5 * i, scale=a["scale"], attrs={k: [v, i] for k, v in a["attrs"].items()})
+        parts = [c11lib.Quad(offset=a["offset"] + 0.5 * i, scale=a["scale"], attrs={k: [v, i] for k, v in a["attrs"].items()}, trunc=a.get("trunc", False))
                  for i in range(run["n_analyses"])]
         out = parts[0]
         for p in parts[1:]:
             out = out + p
         return out
-    return c11lib.Quad(offset=a["offset"], scale=a["scale"], attrs=a["attrs"])
+    return c11lib.Quad(offset=a["offset"], scale=a["scale"], attrs=a["attrs"], trunc=a.get("trunc", False))
 
 
 def mem_samples(samples):
@@ -301,7 +302,7 @@ def scripted_samples(ss, model, run, n=None):
         return None
     s = c11lib.ScriptedSearch(script_seed=ss["script_seed"], n_points=ss["n_points"], kind=ss["kind"], ties=ss["ties"])
     a = run["analysis"]
-    analysis = c11lib.Quad(offset=a["offset"], scale=a["scale"])
+    analysis = c11lib.Quad(offset=a["offset"], scale=a["scale"], trunc=a.get("trunc", False))
     if n is not None:
         n = max(1, min(n, ss["n_points"]))
     return s.samples_from(model, s.script(model, analysis, n=n))
@@ -714,7 +715,8 @@ def user_view(agg, pre: Pre):
     view = {"top": sorted(pre.name(f.id) for f in agg), "grids": {}}
     for g in agg.grid_searches():
         try:
-            best = pre.name(g.best_fit.id)
+            bf = g.best_fit
+            best = pre.name(bf.id) if bf is not None else "none"
         except TypeError:
             best = "error"
         view["grids"][pre.name(g.id)] = {"children": sorted(pre.name(c.id) for c in g.children), "best": best}
@@ -1235,6 +1237,7 @@ def oracle_scrape(ctx, rcase, records, rows, view, co, pre, t_real):
         from common import h2f
         lls = {c["id"]: h2f(rows[c["id"]]["max_ll"]) for c in cells if c["id"] in rows and rows[c["id"]]["max_ll"] is not None}
         if lls and len(lls) == len(cells):
+            ctx.hit("grid-best:" + ("max-is-0.0" if max(lls.values()) == 0.0 and min(lls.values()) < 0.0 else "other"))
             if v["best"] not in lls or lls[v["best"]] != max(lls.values()):
                 ctx.fail("C11-grid-best", "best_fit is not a cell of highest likelihood", rcase, [v["best"], lls])
         if p["complete"] != rec["complete"]:
